@@ -178,14 +178,21 @@ fn evaluate(ctx: &mut RunCtx<'_>, bytes: &[u8], bit_len: usize, plan: &[usize], 
         let ops = &z.types[plan[i]];
         let digest = match &at.out {
             Out::Ok(h) => *h,
-            Out::Err(e) => crate::choices::fnv1a(e.as_bytes()),
+            // (for C19 the error payload is not compared between the builds: kind only)
+            Out::Err(e) => crate::choices::fnv1a(if outcomes_only { e.split('#').next().unwrap_or(e).as_bytes() } else { e.as_bytes() }),
             Out::Panic(p) => crate::choices::fnv1a(p.as_bytes()) ^ 1,
         };
         if log {
             ctx.log.ev("C1", "read", crate::choices::mix(digest, at.pos as u64), || format!("msg{} {} -> {:?} pos={} len={}", i, ops.name, at.out, at.pos, at.len));
         }
         if let Some(o) = &mut ctx.outcomes {
-            o.push(format!("{} {} {:?} pos={} len={} rem_panic={:?}", i, ops.name, at.out, at.pos, at.len, at.remaining_panicked));
+            // C19 compares: Ok + value hash, or the error KIND (variant; the payload is not part of the
+            // property's statement), or the panic site; the position; whether bits_remaining() panicked
+            let shown = match &at.out {
+                Out::Err(e) => format!("Err(\"{}\")", e.split('#').next().unwrap_or(e)),
+                other => format!("{:?}", other),
+            };
+            o.push(format!("{} {} {} pos={} len={} rem_panic={:?}", i, ops.name, shown, at.pos, at.len, at.remaining_panicked));
         }
         if outcomes_only {
             ctx.counters.inc(match &at.out {
@@ -425,6 +432,8 @@ pub fn run_uper(ctx: &mut RunCtx<'_>, outcomes_only: bool) -> Option<Violation> 
     if outcomes_only {
         ctx.nontrivial = ra_len > 0;
         ctx.counters.inc(if cfg!(feature = "dde") { "build.descriptive-deserialize-errors=on" } else { "build.descriptive-deserialize-errors=off" });
+        // the injected "fault" of C19 is the configuration: the same history runs in a differently built process
+        ctx.counters.inc("fault.CFG-BUILD-SKEW.history-executed-in-this-build");
         let d = DDE_DESCRIPTIONS.swap(0, std::sync::atomic::Ordering::Relaxed);
         ctx.counters.add("probe.dde_error_carries_description", d);
         if applied.is_empty() && !xtype {
